@@ -1,6 +1,6 @@
 #!/bin/sh
 # try_neutral.sh <dir with neutral*.diff>: apply each to a scratch copy of /repo; run the checks of the touched package; report alarms
-for p in $1/neutral*.diff; do
+for p in $1/${PAT:-neutral*.diff}; do
   f=$(grep '^+++ b/' $p | head -1 | sed 's|+++ b/||')
   case $f in
     pipe/fork/*) ids="C09 C10 C06";;
